@@ -651,10 +651,20 @@ def anchor_paths():
 
 
 def sequential_results(kind, variant):
-    """what a single thread obtains: each program run to completion, one after the other"""
-    sc = make_scenario(kind, variant)
-    fns = sc.build(None)
-    return [fn() for fn in fns]
+    """What a single thread obtains: the programs run to completion one after the other (a controlled run
+    without any preemption, so that even a self-deadlock of the real code is detected instead of hanging).
+    Returns (results, failure text | None, schedule)."""
+    res, _ = run_one(kind, variant, sched.fixed_chooser([]), False)
+    bad = None
+    for t, e in enumerate(res['excs']):
+        if e is not None:
+            if isinstance(e, Broken):
+                raise e
+            bad = f'thread {t} raised {type(e).__name__}: {str(e)[:120]} (no preemption at all)'
+            break
+    if bad is None and res['deadlock']:
+        bad = f"deadlock without any preemption: blocked = {res['blocked']}"
+    return res['results'], bad, res['schedule']
 
 
 def run_one(kind, variant, chooser, fine, timeout=30.0):
@@ -710,11 +720,15 @@ class Explorer:
 
 def explore_scenario(ctx, kind, variant, bound, max_runs, fine, extra_random=0):
     """Explore one scenario.  Returns dict(concrete=(case, text)|None, requests=[(line, case)], runs=int)."""
-    expected = sequential_results(kind, variant)
+    expected, seq_bad, seq_schedule = sequential_results(kind, variant)
     out = dict(concrete=None, requests=[], runs=0, exhausted=False, name=None)
 
     def case_of(schedule):
         return dict(object=kind, variant=variant, schedule=list(schedule), fine=fine)
+    if seq_bad:
+        out['concrete'] = (dict(case_of(seq_schedule), fine=False), seq_bad)
+        out['name'] = make_scenario(kind, variant).name
+        return out
 
     def handle(res, sc):
         out['name'] = sc.name
@@ -816,7 +830,7 @@ def variants(ctx):
 def shrink_schedule(case, expected_fn):
     """shortest prefix of the failing schedule (then 'continue current thread') that still fails"""
     kind, variant, schedule, fine = case['object'], case['variant'], case['schedule'], case.get('fine', False)
-    expected = expected_fn(kind, variant)
+    expected = expected_fn(kind, variant)[0]
 
     def fails(prefix):
         try:
@@ -956,7 +970,7 @@ def replay(ctx, rep):
     kind, variant, schedule = case['object'], case['variant'], case['schedule']
     refinement = []
     with dask.config.set(scheduler='synchronous'):
-        expected = sequential_results(kind, variant)
+        expected = sequential_results(kind, variant)[0]
         res, sc = run_one(kind, variant, sched.fixed_chooser(schedule), case.get('fine', False))
         ctx.count((kind, json.dumps(variant, sort_keys=True), tuple(res['schedule'])), True,
                   sample={'object': sc.name, 'schedule': ''.join(map(str, res['schedule']))[:120]})
